@@ -641,12 +641,16 @@ func check(args []string) {
 	_ = os.MkdirAll(filepath.Join(verifDir, "replays"), 0o755)
 	violations := 0
 	var vioList []map[string]any
+	var notReproduced []string
 	knownSeen := map[string]bool{}
 	for _, k := range keys {
 		f := firstFail[k]
 		final, reproduced := confirm(br, pc, f)
 		if !reproduced {
-			trouble("a reported failure did not reproduce on replay (simulator bug, not a verdict): %s / %s (seed=%d run=%d)", f.Class, f.Witness, f.Seed, f.Run)
+			// not a verdict: set aside; if nothing else reproduces either, the check ends as trouble (exit 2)
+			notReproduced = append(notReproduced, fmt.Sprintf("%s / %s (seed=%d run=%d)", f.Class, f.Witness, f.Seed, f.Run))
+			fmt.Printf("verifctl: a reported failure did not reproduce on replay and is not counted: %s\n", notReproduced[len(notReproduced)-1])
+			continue
 		}
 		if what, ok := kf.match(id, final.Class, final.Witness); ok {
 			if !knownSeen[what] {
@@ -664,6 +668,9 @@ func check(args []string) {
 		vioList = append(vioList, map[string]any{"class": final.Class, "witness": final.Witness, "detail": final.Detail, "replay": path, "occurrences": agg.FailCounts[f.Class+"|"+f.Witness]})
 		fmt.Printf("VIOLATION property=%s replay=%s\n", id, path)
 		fmt.Printf("  class=%s witness=%q\n  detail=%s\n", final.Class, final.Witness, final.Detail)
+	}
+	if violations == 0 && len(notReproduced) > 0 {
+		trouble("reported failures did not reproduce on replay (simulator trouble, not a verdict): %s", strings.Join(notReproduced, "; "))
 	}
 	wallS := time.Since(start).Seconds()
 	// evidence
@@ -697,6 +704,7 @@ func check(args []string) {
 			"failure_counts":         agg.FailCounts,
 			"known_findings_seen":    len(knownSeen),
 			"violation_list":         vioList,
+			"failures_not_reproduced": notReproduced,
 			"workers":                workers,
 		},
 	}
